@@ -1,24 +1,32 @@
-use vf_world::g_storage::val::*;
+use vf_world::g_storage::bak;
+use vf_world::srv::*;
+use vf_world::*;
+use kanidmd_lib::prelude::*;
+use kanidmd_lib::verif_hooks::storage as hk;
 fn main() {
-    for i in 0..IMPORTS.len() {
-        let g = GPw::Import { idx: i as u8, lower: false };
-        let t = std::time::Instant::now();
-        let pw = g.build().unwrap();
-        let tb = t.elapsed();
-        let t = std::time::Instant::now();
-        let r = pw.verify(&g.clear());
-        let tv = t.elapsed();
-        let t = std::time::Instant::now();
-        let r2 = pw.verify("nope");
-        println!("{} build {:?} verify {:?} {:?} wrong {:?} {:?}", g.label(), tb, tv, r, t.elapsed(), r2);
-    }
-    for algo in 0..2 {
-        let g = GPw::Generated { clear: "abc".into(), algo };
-        let t = std::time::Instant::now();
-        let pw = g.build().unwrap();
-        let tb = t.elapsed();
-        let t = std::time::Instant::now();
-        let r = pw.verify("abc");
-        println!("{} build {:?} verify {:?} {:?}", g.label(), tb, t.elapsed(), r);
-    }
+    let rt = runtime();
+    rt.block_on(async {
+        let qs = new_qs().await;
+        let mut w = qs.write(ct(1)).await.unwrap();
+        w.internal_create(vec![pop::person(pop::person_uuid(0), "p0"), pop::group(pop::group_uuid(0), "g0", &[pop::person_uuid(0)])]).unwrap();
+        w.commit().unwrap();
+        let mut w = qs.write(ct(2)).await.unwrap();
+        w.internal_delete(&Filter::new_ignore_hidden(f_eq(Attribute::Name, PartialValue::new_iname("g0")))).unwrap();
+        w.commit().unwrap();
+        let data = {
+            let mut r = qs.read().await.unwrap();
+            println!("orig verify {:?}", hk::qs_verify(&mut r));
+            bak::backup(&mut r, false).unwrap()
+        };
+        let (be, schema) = bak::restore_fresh(&data, false).unwrap();
+        println!("restored");
+        {
+            let mut br = be.read().unwrap();
+            println!("ids {:?}", hk::be::db_ids(&mut br).map(|x| (x.0, x.1, x.2)));
+        }
+        let qs2 = bak::start(be, schema, ct(3)).await.unwrap();
+        println!("started");
+        let mut r = qs2.read().await.unwrap();
+        println!("restored verify {:?}", hk::qs_verify(&mut r));
+    });
 }
